@@ -21,39 +21,20 @@ def recs_of(unit, cls):
 # ---- loops ----------------------------------------------------------------
 
 class Loop:
-    def __init__(self, fn, node):
-        self.fn, self.node = fn, node
-        self.body = set()
-        b = node.child("body")
-        if b is not None:
-            for x in b.walk():
-                self.body.add(x.id)
-        inc = node.child("inc")
-        if inc is not None:
-            for x in inc.walk():
-                self.body.add(x.id)
-        self.ivar = None
-        self.start = None
-        self.bound = None
-        self.op = None
-        init = node.child("init")
-        if init is not None and init.kind == "DeclStmt":
-            ds = init.get("decls", [])
-            if len(ds) == 1 and "init" in ds[0]:
-                self.ivar = ds[0]["d"]
-                self.start = fn.node(ds[0]["init"])
-        c = node.child("cond")
-        if c is not None:
-            cs = c.strip()
-            if cs.kind == "BinaryOperator" and cs.op in ("<", "<=", "!=", ">", ">="):
-                l = cs.children[0].strip()
-                if l.kind == "DeclRefExpr" and (self.ivar is None or l.d["d"] == self.ivar):
-                    self.ivar = l.d["d"]
-                    self.bound = cs.children[1]
-                    self.op = cs.op
+    """A counting loop seen through the CFG (natural loop + induction variable), independent of whether the
+    source spells it `for`, `while` or `do`."""
+
+    def __init__(self, fn, nl, var, info):
+        self.fn, self.nl = fn, nl
+        self.ivar = var
+        self.start = info.get("init")
+        b = info.get("bound") or (None, None)
+        self.op, self.bound = b[0], b[1]
+        self.steps = info.get("steps", [])
+        self.header = nl.header
 
     def contains(self, n):
-        return n.id in self.body
+        return self.nl.contains(n)
 
     def bound_canon(self, env=None):
         return canon(self.bound, env) if self.bound is not None else None
@@ -61,9 +42,26 @@ class Loop:
     def start_canon(self, env=None):
         return canon(self.start, env) if self.start is not None else None
 
+    def step_of(self):
+        """(kind, operand node): ('+=', node) / ('++', None) / ('--', None) if the variable has exactly one step."""
+        if len(self.steps) != 1:
+            return None
+        s = self.steps[0]
+        if s.kind == "UnaryOperator":
+            return (s.op, None)
+        if s.kind == "CompoundAssignOperator":
+            return (s.op, s.children[1])
+        return ("=", s.children[1])
+
 
 def for_loops(fn):
-    return [Loop(fn, n) for n in fn.all_nodes() if n.kind == "ForStmt"]
+    """Counting loops of fn (kept under its historical name): one entry per (natural loop, induction variable)."""
+    out = []
+    for nl in flow.natural_loops(fn):
+        for var, info in flow.induction(fn, nl).items():
+            if info.get("steps"):
+                out.append(Loop(fn, nl, var, info))
+    return out
 
 
 def in_cycle_blocks(fn):
@@ -383,12 +381,8 @@ def check_destroy_before_free(ctx, unit, classes, rule="O4.destroy-before-free")
                             continue
                         lp = [l for l in loops if l.contains(d)]
                         if lp:
-                            hdr = f.positions().get(lp[0].node.child("cond").id if lp[0].node.child("cond") is not None else -1)
                             # loop header block dominates the free
-                            cb = None
-                            for b in f.blocks.values():
-                                if b.term == lp[0].node.id:
-                                    cb = b.id
+                            cb = lp[0].header
                             if cb is not None and f.dominates_block(cb, f.positions()[n.id][0]):
                                 ok, why = True, "destruction loop over [%s, %s) precedes the release" % (lp[0].start_canon(), lp[0].bound_canon())
                         elif f.dominates(d.id, n.id):
